@@ -218,7 +218,16 @@ static void check_probe (const char *when) {
   compile_input ("c02/probe.c", probe_text, probe_len, 0, &o, 1);
   vx_count (2, 1);
   if (o.escaped) vx_fail ("C02:probe-differs:runtime-error", "%s: compiling the probe raised a runtime error: %s", when, o.err);
-  else if (!o.have_prog) vx_fail ("C02:probe-differs:no-program", "%s: the probe no longer compiles (%d errors): %.300s", when, o.nerr, o.msg);
+  else if (!o.have_prog) {
+    /* key = what the first message says (without file and line): different leftovers break the next compile differently */
+    char key[200], cls[80]; size_t k = 0;
+    const char *m = strstr (o.msg, ": ");
+    for (m = m ? m + 2 : o.msg; *m && *m != '\n' && *m != '\'' && *m != '(' && !(*m >= '0' && *m <= '9') && k + 1 < sizeof cls; m++) cls[k++] = *m == ' ' ? '-' : *m;
+    while (k && (cls[k - 1] == '-' || cls[k - 1] == '.')) k--;
+    cls[k] = 0;
+    snprintf (key, sizeof key, "C02:probe-differs:no-program:%s", cls);
+    vx_fail (key, "%s: the probe no longer compiles (%d errors): %.300s", when, o.nerr, o.msg);
+  }
   else if (o.nerr != base_probe.nerr || strcmp (o.msg, base_probe.msg)) vx_fail ("C02:probe-differs:messages", "%s: probe messages differ: [%.200s] vs baseline [%.200s]", when, o.msg, base_probe.msg);
   else if (o.hash != base_probe.hash || (selftest == 1)) {
     char d[400] = "(selftest: baseline dump corrupted)";
